@@ -42,7 +42,7 @@ func c03History(c *core.Ctx, idx int) (*hist.History, []*hist.Table) {
 	ntx := 3 + r.Intn(6)
 	rotLeft := nfiles - 1
 	if idx%5 == 0 && rotLeft > 0 {
-		b.Add(hist.Rotate) // rotation as the very first unit
+		b.AddSwitch() // file switch as the very first unit
 		rotLeft--
 	}
 	for i := 0; i < ntx; i++ {
@@ -51,10 +51,10 @@ func c03History(c *core.Ctx, idx int) (*hist.History, []*hist.Table) {
 		}
 		b.Add(hist.UnitKind(r.Intn(6)))
 		if rotLeft > 0 && r.Chance(1, 2) {
-			b.Add(hist.Rotate)
+			b.AddSwitch()
 			rotLeft--
 			if rotLeft > 0 && r.Chance(1, 4) {
-				b.Add(hist.Rotate) // two rotations in a row
+				b.AddSwitch() // two file switches in a row
 				rotLeft--
 			}
 		}
@@ -83,7 +83,7 @@ func c03History(c *core.Ctx, idx int) (*hist.History, []*hist.Table) {
 }
 
 func checkC03(c *core.Ctx) {
-	c.SetRule("histories of 1..4 binlog files (rotation after every kind of unit, two rotations in a row, rotation as the first unit, per-file checksum / row-version / table-id configuration, half of them with file offsets just below or straddling 2^31 and just below 2^32), streamed fully and then resumed by a FRESH streamer at the end label of EVERY delivered transaction k; oracles: labels equal the model (start = previous end / initial position / rotate target, end = end offset of the commit event), independent chain rule, resumed stream accepted by the master on an event boundary and delivering exactly tx[k+1..] with identical contents and labels; distinct by (history bytes, k); non-trivial iff the history has a rotation or >= 3 transactions")
+	c.SetRule("histories of 1..4 binlog files (file switch after every kind of unit — by a ROTATE event or, one time in three, by a server restart (STOP event or nothing, next file announced only by the artificial rotate, table ids possibly re-bound) —, two switches in a row, a switch as the first unit, per-file checksum / row-version / table-id configuration, half of them with file offsets just below or straddling 2^31 and just below 2^32), streamed fully and then resumed by a FRESH streamer at the end label of EVERY delivered transaction k; oracles: labels equal the model (start = previous end / initial position / rotate target, end = end offset of the commit event), independent chain rule, resumed stream accepted by the master on an event boundary and delivering exactly tx[k+1..] with identical contents and labels; distinct by (history bytes, k); non-trivial iff the history has a rotation or >= 3 transactions")
 	nh := c.N(60, 4000)
 	if c.Replay != "" {
 		var w struct {
@@ -117,7 +117,7 @@ func c03Run(c *core.Ctx, idx int, h *hist.History, tables []*hist.Table, only in
 	exp := hist.Expect(h, l, start)
 	rot := false
 	for i := range h.Units {
-		if h.Units[i].Kind == hist.Rotate {
+		if h.Units[i].Kind == hist.Rotate || h.Units[i].Kind == hist.Restart {
 			rot = true
 		}
 	}
@@ -185,7 +185,7 @@ func c03Run(c *core.Ctx, idx int, h *hist.History, tables []*hist.Table, only in
 	for k := 1; k < len(ds); k++ {
 		rotBetween := false
 		for ui := exp[k-1].Unit + 1; ui < exp[k].Unit; ui++ {
-			if h.Units[ui].Kind == hist.Rotate {
+			if h.Units[ui].Kind == hist.Rotate || h.Units[ui].Kind == hist.Restart {
 				rotBetween = true
 			}
 		}
